@@ -35,14 +35,20 @@ theorem expression_fields : (expressionFields == [("node", "parser.Node")]) = tr
 
 /-- library functions that read their arguments and write nothing reachable from them (trusted; see DESIGN §6.5) -/
 def readOnlyCallee (k : String) : Bool :=
-  k == "extcall:reflect.TypeOf" || k == "extcall:slices.Clone" || k == "extcall:maps.Clone" || k == "extcall:strings.Clone"
-  || k == "extcall:encoding/json.Marshal"
-  || k == "extcall:invoke:reflect.Type.String" || k == "extcall:invoke:reflect.Type.Name"
-  || k == "extcall:invoke:reflect.Type.Kind" || k == "extcall:invoke:reflect.Type.Elem"
+  ["extcall:reflect.TypeOf#0", "extcall:slices.Clone#0", "extcall:maps.Clone#0", "extcall:strings.Clone#0",
+   "extcall:encoding/json.Marshal#0",
+   "extcall:invoke:reflect.Type.String#0", "extcall:invoke:reflect.Type.Name#0",
+   "extcall:invoke:reflect.Type.Kind#0", "extcall:invoke:reflect.Type.Elem#0",
+   -- the SOURCE argument of a copying function (the destination, argument 0, must be private as any written memory)
+   "extcall:maps.Copy#1", "extcall:maps.Values#0", "extcall:maps.Keys#0", "extcall:maps.All#0",
+   "extcall:slices.Values#0", "extcall:slices.All#0", "extcall:slices.Collect#0", "extcall:slices.Sorted#0",
+   "extcall:slices.Contains#0", "extcall:slices.Index#0", "extcall:slices.Equal#0", "extcall:slices.Equal#1"].contains k
 
 /-- the debugging printer of the parser writes to the caller's io.Writer: allowed there and nowhere else -/
 def printerCall (e : Effect) : Bool :=
-  e.fn == "(*parser.writeVisitor).Visit" && (e.kind == "extcall:invoke:io.Writer.Write" || e.kind == "extcall:fmt.Fprintf")
+  e.fn == "(*parser.writeVisitor).Visit"
+    && ["extcall:invoke:io.Writer.Write#0", "extcall:invoke:io.Writer.Write#1", "extcall:fmt.Fprintf#0", "extcall:fmt.Fprintf#1",
+        "extcall:fmt.Fprintf#2"].contains e.kind
 
 /-- memory a call outside the four packages may write: what the call itself allocated, or a decoder made in this function -/
 def privateArg (p : String × String) : Bool :=
@@ -72,20 +78,20 @@ theorem entry_points_do_the_work :
     (successReturns.all (fun r => !r.2.isEmpty)
      && (successReturns.filter (·.1 == "jmespath.Search")).all (fun r =>
           (r.2.contains "parser.Parse" && r.2.contains "evaluator.Evaluate") || r.2.any (fun c => c != "parser.Parse" && c != "evaluator.Evaluate"))
-     && mustCompilePanicCond == "errNotNil:parser.Parse"
+     && (mustCompilePanicCond == "errNotNil:parser.Parse" || mustCompilePanicCond == "errNotNil:jmespath.Compile")
      && parseArgs.all (·.2) && !parseArgs.isEmpty) = true := by decide
 
 /-- sorting functions of the standard library -/
 def isSortCall (k : String) : Bool :=
-  ["extcall:sort.Sort", "extcall:sort.Stable", "extcall:sort.Slice", "extcall:sort.SliceStable", "extcall:sort.Strings",
-   "extcall:sort.Ints", "extcall:sort.Float64s", "extcall:slices.Sort", "extcall:slices.SortFunc",
-   "extcall:slices.SortStableFunc"].contains k
+  ["extcall:sort.Sort#0", "extcall:sort.Stable#0", "extcall:sort.Slice#0", "extcall:sort.SliceStable#0", "extcall:sort.Strings#0",
+   "extcall:sort.Ints#0", "extcall:sort.Float64s#0", "extcall:slices.Sort#0", "extcall:slices.SortFunc#0",
+   "extcall:slices.SortStableFunc#0"].contains k
 
 /-- [C13] whatever `sort_by` sorts with (in `sortArrayBy` or in helpers it calls) is a stable sort, and it does sort:
     the order of elements with equal keys is the original one at every length -/
 theorem sort_by_is_stable :
     ((extCalls.filter (fun e => reachFromSortBy.contains e.fn && isSortCall e.kind)).all
-        (fun e => e.kind == "extcall:sort.Stable" || e.kind == "extcall:sort.SliceStable" || e.kind == "extcall:slices.SortStableFunc")
+        (fun e => e.kind == "extcall:sort.Stable#0" || e.kind == "extcall:sort.SliceStable#0" || e.kind == "extcall:slices.SortStableFunc#0")
      && extCalls.any (fun e => reachFromSortBy.contains e.fn && isSortCall e.kind)) = true := by decide
 
 def reaches (ep callee : String) : Bool :=
